@@ -7,11 +7,12 @@
 #include "argcheck.h"
 
 struct arg_field AF[MAXVAR + 2]; int NAF;
-static uint8_t before[MAXVAR][80];
+static uint8_t *before[MAXVAR];
 static struct { int vi; size_t ws; } vw[16]; static int nvw;
 static int wh_calls; static size_t wh_argsnum;
 static char line_desc[900];
 char ARG_NOTE[200];
+size_t ARG_CAP_HINT;      /* 0: generous command capacity; else the capacity to use (callers pass argument length + 1 .. + 3 for a tight fit) */
 
 static cat_return_state policy(struct hcall *h) { if (h->kind == K_WRITE) { wh_calls++; wh_argsnum = h->args_num; } return CAT_RETURN_STATE_OK; }
 static int vpolicy(int ci, int vi, int dir, size_t ws) { (void)ci; if (dir == 1) { if (nvw < 16) { vw[nvw].vi = vi; vw[nvw].ws = ws; } nvw++; } return 0; }
@@ -24,19 +25,31 @@ static const char *prop_of(const struct cat_variable *v) { return v->type <= CAT
 struct cat_command *args_world(int nv, bool with_handler, bool need_all, bool shared)
 {
         w_begin();
-        struct cat_command *arr = w_group(2, false);
-        struct cat_command *c = &arr[0];
+        /* the target "+S" sits in a table of 2..60 commands: the argument text shares the working buffer with the per-command match flags,
+         * so the bytes behind the argument terminator differ with the table shape (neighbours that are prefixes / extensions of the name,
+         * disabled ones, unrelated ones) */
+        size_t ncmd = chance(40) ? 2 : 2 + rn(chance(50) ? 12 : 59), tpos = rn(ncmd);
+        struct cat_command *arr = w_group(ncmd, false);
+        struct cat_command *c = &arr[tpos];
         c->name = xstr("+S"); c->need_all_vars = need_all; c->write = with_handler ? h_write : NULL;
-        arr[1].name = xstr("+OTHER"); arr[1].run = h_run;
+        for (size_t i = 0; i < ncmd; i++) {
+                if (i == tpos) continue;
+                char nm[16]; unsigned k = rn(6);
+                if (k == 0) snprintf(nm, sizeof nm, "+S%c", 'A' + (int)rn(4)); else if (k == 1) snprintf(nm, sizeof nm, "+SET%zu", i); else if (k == 2) snprintf(nm, sizeof nm, "+"); else snprintf(nm, sizeof nm, "+O%zu", i);
+                arr[i].name = xstr(nm); arr[i].run = h_run; arr[i].disable = chance(20);
+                if (k == 2 && i < tpos) arr[i].disable = true;            /* an enabled "+" before "+S" would only matter for abbreviations; keep "+S" reachable by its full name */
+        }
         struct cat_variable *v = w_vars(c, (size_t)nv);
         for (int j = 0; j < nv; j++) {
                 v[j].type = (cat_var_type)AF[j].type; v[j].access = (cat_var_access)AF[j].access; v[j].name = NULL;
                 uint8_t *d = w_vdata(&v[j], AF[j].size);
                 for (size_t b = 0; b < AF[j].size; b++) d[b] = (uint8_t)rnd();
                 v[j].write = AF[j].no_callback ? NULL : hv_write;
+                before[j] = xalloc(AF[j].size);
         }
-        size_t cap = 1600;
-        w_buffers(shared ? cap * 2 : cap, shared, 32);
+        size_t cap = ARG_CAP_HINT ? ARG_CAP_HINT : 2500;
+        if (cap < w_min_cap()) cap = w_min_cap();
+        w_buffers(shared ? cap * 2 + rn(2) : cap, shared, 32);
         w_init((int)rn(2));
         POLICY = policy; VPOLICY = vpolicy;
         return c;
@@ -53,7 +66,7 @@ void args_run_and_judge(struct cat_command *c, const uint8_t *args, size_t n, co
         { char ab[700]; fmt_bytes(ab, sizeof ab, args, n > 200 ? 200 : n); snprintf(line_desc, sizeof line_desc, "arguments (%zu bytes): \"%s\"%s", n, ab, n > 200 ? "..." : ""); }
         if (run_quiet(quiet_bound() + 4 * (long)n) < 0) { inconclusive("no quiescence (C15's subject)"); return; }
         { struct ref_line rl; ref_parse_line(INB, INLEN - 1, W.capA, &rl);
-          if (rl.cls != RL_REQ || rl.kind != K_WRITE || rl.ci != 0) { CNT("lines_not_a_write_request_skipped"); return; } }   /* e.g. '?' as first byte turns the line into a TEST request */
+          if (rl.cls != RL_REQ || rl.kind != K_WRITE || W.cmd[rl.ci] != c) { CNT("lines_not_a_write_request_skipped"); return; } }   /* e.g. '?' as first byte turns the line into a TEST request */
         if (!ref_writable(c)) {
                 /* nothing writable: the arguments are not decoded at all; the write handler (if any) gets the raw text, otherwise ERROR (gating, C08/C09) */
                 CNT("lines_without_writable_variable");
